@@ -17,6 +17,8 @@ PUNCT = ['<<=', '>>=', '...', '..=', '::', '->', '=>', '==', '!=', '<=', '>=', '
          '<<', '>>', '..', '+', '-', '*', '/', '%', '^', '!', '&', '|', '=', '<', '>', '@', '.', ',', ';', ':', '#', '$', '?', '(', ')', '[', ']',
          '{', '}', '_']
 
+MACROS = {}      # macro_rules definitions with a single identifier parameter, by name (per process)
+
 class Tok:
     __slots__ = ('kind', 'val', 'line', 'suffix')
     def __init__(self, kind, val, line, suffix=None):
@@ -220,10 +222,43 @@ class Parser:
         if self.at('use') or self.at('extern') or self.at('static'):
             self.skip_to_semi(); return None
         if self.at('macro_rules'):
-            self.skip_to_semi_or_block(); return None
+            # `macro_rules! name { ($p:ident) => { body } }` (one rule, one identifier parameter) is remembered and expanded
+            # at its item-position invocations; every other macro definition is skipped
+            save = self.p
+            try:
+                self.next(); self.expect('!'); name = self.ident(); self.expect('{'); self.expect('(')
+                self.expect('$'); param = self.ident(); self.expect(':'); kind = self.ident(); self.expect(')'); self.expect('=>')
+                if kind != 'ident': raise ParseError('macro parameter kind')
+                self.expect('{'); depth = 1; body = []
+                while depth:
+                    t = self.next()
+                    if t.kind == 'eof': raise ParseError('unterminated macro body')
+                    if t.kind == 'punct' and t.val == '{': depth += 1
+                    elif t.kind == 'punct' and t.val == '}':
+                        depth -= 1
+                        if depth == 0: break
+                    body.append(t)
+                self.accept(';'); self.expect('}')
+                MACROS[name] = (param, body)
+                return None
+            except ParseError:
+                self.p = save
+                self.skip_to_semi_or_block(); return None
         if self.peek().kind == 'ident' and self.at('!', 1):     # item-position macro call, e.g. compile_error!(..)
-            self.next(); self.next(); o = self.peek().val
-            self.skip_balanced(o, {'(': ')', '[': ']', '{': '}'}[o]); self.accept(';'); return None
+            name = self.next().val; self.next(); o = self.peek().val
+            start = self.p
+            self.skip_balanced(o, {'(': ')', '[': ']', '{': '}'}[o]); args = self.t[start + 1:self.p - 1]; self.accept(';')
+            if name in MACROS and len(args) == 1 and args[0].kind == 'ident':
+                param, body = MACROS[name]; out = []; i = 0
+                while i < len(body):
+                    if body[i].kind == 'punct' and body[i].val == '$' and i + 1 < len(body) and body[i + 1].val == param:
+                        out.append(Tok('ident', args[0].val, body[i].line)); i += 2
+                    else:
+                        out.append(body[i]); i += 1
+                sub = Parser(out + [Tok('eof', None, 0)], self.fname)
+                items = sub.file()
+                return ('mod', '__macro_%s_%s' % (name, args[0].val), items) if items else None
+            return None
         if self.at('mod'):
             self.next(); name = self.ident()
             if self.accept(';'): return None
